@@ -589,6 +589,19 @@ var c05Directed = func() []c05Dir {
 		out = append(out, c05Dir{Src: src, Abs: map[string]cty.Value{"l": lref, "c": ub},
 			Concs: []map[string]cty.Value{{"l": cty.ListVal([]cty.Value{o(1)}), "c": T}, {"l": cty.ListVal([]cty.Value{o(1), o(2)}), "c": F}, {"l": cty.ListVal([]cty.Value{o(3), o(2)}), "c": T}}})
 	}
+	// one element of a known collection abstracted, at every position: what is
+	// iterated / joined after the unknown element must not make the result known
+	for _, src := range []string{`"%{ for x in [a, b, c] }<${x}>%{ endfor }"`, `"%{ for k, x in {p = a, q = b, r = c} }${k}=${x};%{ endfor }"`,
+		`"%{ for x in [a, b, c] }%{ if x != "q" }${x}%{ endif }%{ endfor }"`, `"${a}-${b}-${c}"`, `[a, b, c][*]`, `join(",", [a, b, c])`,
+		`"%{ for x in [a, b] }${x}%{ endfor }${c}"`, "<<EOT\n%{ for x in [a, b, c] ~}\n  ${x}\n%{ endfor ~}\nEOT\n", `[for x in [a, b, c]: "${x}!"]`, `{for i, x in [a, b, c]: x => i...}`} {
+		for _, name := range []string{"a", "b", "c"} {
+			for _, unk := range []cty.Value{cty.UnknownVal(cty.String), cty.UnknownVal(cty.String).RefineNotNull(), cty.UnknownVal(cty.String).Refine().NotNull().StringPrefix("q").NewValue(), cty.DynamicVal} {
+				abs := map[string]cty.Value{"a": s("p"), "b": s("q"), "c": s("r")}
+				abs[name] = unk
+				out = append(out, c05Dir{Src: src, Abs: abs, Concs: []map[string]cty.Value{{name: s("q")}, {name: s("qq")}, {name: s("q-other")}}})
+			}
+		}
+	}
 	return out
 }()
 
